@@ -40,7 +40,7 @@ fn settle<P: Pad>(
     drop(held);
     flush_events(ctx, opname, n, lay, fired);
     let live = ledger_live();
-    if live != 0 {
+    if P::DROP && live != 0 {
         if fired == Some(FpKind::Drop) {
             ctx.count("allowed_leaks", live);
         } else {
@@ -274,7 +274,7 @@ pub fn from_array_case<const N: usize, const M: usize, P: Pad>(
             d.sort_unstable();
             let mut wd: Vec<u64> = src[..M - keep].iter().map(|x| x.0).collect();
             wd.sort_unstable();
-            if d != wd {
+            if P::DROP && d != wd {
                 ctx.violation(
                     "C12",
                     format!("op=from_array|ncap={}|lay={}|wrong_discards", ncls(N), lay),
@@ -356,7 +356,7 @@ pub fn from_iter_case<const N: usize, P: Pad>(
             d.sort_unstable();
             let mut wd: Vec<u64> = src[..k - keep].iter().map(|x| x.0).collect();
             wd.sort_unstable();
-            if d != wd {
+            if P::DROP && d != wd {
                 ctx.violation(
                     "C12",
                     format!("op=from_iter|ncap={}|lay={}|wrong_discards", ncls(N), lay),
